@@ -21,6 +21,10 @@ CHECKS = {
             "Every node of every recorded tree (fixtures of all dialects, templated inputs, mutants, all word sequences <= 3 in several dialects) is checked by TLC for span = hull of its leaves, ordered children, no whitespace/comment ends, and the leaf sequence for never-negative, finally-zero indent balance.",
             "Decided on explored inputs. Zero-width children may sit inside the next child's span (tags rendering nothing inside a token). Known findings: partial matches keep an Indent (class), two grammars lacking Dedents.",
             "DESIGN.md §5 C03"),
+    "C04": (EX, "per-file lifecycle state machine spec/Pipeline.tla (no Crash action; parse-limit contract) model-checked; code->spec validation (spec/PipelineTrace.tla) of whole entry-point calls recorded for corpus files, mutants, crash-oriented constructions and TLC-enumerated small scopes",
+            "parse / lint / fix(+fix_string) calls are recorded at the stage boundaries and at the outermost entry point; every run must be a behaviour of Pipeline: stages in order, a result returned, no escaping exception, max_parse_nodes overflow reported as PRS without a tree. Inputs: fixtures of every dialect, token-level mutants, deep nesting and huge lists with lowered limits, empty / comment-only / control-character files, templater edge cases, all word sequences <= 2 and Jinja skeletons <= 3.",
+            "Exploration: cannot show absence of crashes. Valid configurations only (usage errors are exempt). Interpreter recursion limits are outside the model. Known findings: dangling grammar references (2 witnesses), python `{x:}`, Delimited append assertion.",
+            "DESIGN.md §5 C04"),
     "C05": (EX, "pipeline contract (spec/Pipeline.tla: Lint is enabled only without internal rule errors) + trace validation (spec/PipelineTrace.tla) of recorded lint/fix runs over rules x options x inputs",
             "Recorded lint and fix runs over fixtures and mutants (incl. partly unparsable files) under all rules, each rule group and each rule alone with every non-default option value from the rules' own config_info; no run may report an 'Unexpected exception' violation.",
             "Exploration: the decision power is the explored input set. Trusted: piperec wrappers; the 'Unexpected exception' prefix written by BaseRule.crawl.",
